@@ -100,10 +100,17 @@ func genDiffCase(r *rand.Rand, cfg Cfg) Case {
 func diffModelLine(line string) string { return line }
 
 func famDiff(f *FamCtx) {
-	f.Report.Rule = "2-4 trees per case: unrelated, emptied, clones and reloads of one another with small or large later changes, persisted or not; ordered pairs (also a nil old tree) diffed through DiffIter, the DiffCursor, and callbacks that stop or fail at event j; events compared with the model's literal diffOne and with a sorted-merge oracle over Go maps; non-trivial = reached height >= 1 and changed height"
+	f.Report.Rule = "2-4 trees per case: unrelated, emptied, clones and reloads of one another with small or large later changes, persisted or not, one case in ten a tree left too tall by a Delete whose height reduction a failing load interrupted; ordered pairs (also a nil old tree) diffed through DiffIter, the DiffCursor, and callbacks that stop or fail at event j; events compared with the model's literal diffOne and with a sorted-merge oracle over Go maps; non-trivial = reached height >= 1 and changed height"
 	f.Gen = func() Case { return genDiffCase(f.Rand, RandCfg(f.Rand)) }
 	n := f.N(200, 8000)
 	for i := 0; i < n; i++ {
+		if i%10 == 9 {
+			// trees that are taller than their entries warrant (an entry-less top node over a child):
+			// the state a Delete leaves when its height reduction is interrupted by a failing load,
+			// diffed in both directions against the version it came from
+			f.RunTreeCase(genInterruptedDeleteCase(f.Rand, RandCfg(f.Rand)), faultRunner, multiLevel)
+			continue
+		}
 		f.RunTreeCase(f.Gen(), exactRunner, multiLevel)
 	}
 }
